@@ -287,7 +287,7 @@ func TestVerif_C02(t *testing.T) {
 	p := vk.Env()
 	stdout := os.Stdout
 	c02Quiet()
-	res := vk.NewResult("every program of layers L1 (13 binary + 2 unary operators x ordered pairs of 16 value shapes, as literals, through variables, and request-derived through JSON body / query string / path parameters), L2 (all operator pairs a op1 b op2 c and unary/binary mixes over 7 operand triples), L3 (statement lists of length <= 2 (thorough 3) over leaf and compound statement templates on three variables, with and without a final return), L4 (every non-excluded name of both engines' built-in tables x argument vectors of arity 0..2 (thorough 3) over 16 shapes, call and method form), L5/L6 (user functions with defaults x call arities, callbacks, match patterns x shapes, scoping, async/await, validation, declared return and input types; hand-written corner programs) is parsed by the real parser; setupRoutes itself decides whether the module is served compiled, interpreted (automatic fallback: then both modes run the interpreter and only determinism is checked) or refused; a module served compiled is run (a) at engine level: CompileRoute(OptBasic)+vm.Execute with the compiled handler's bindings vs interpreter.ExecuteRoute (routes with a declared input type at HTTP level only), and (b) at HTTP level: setupRoutes+createHandler in compiled and in --interpret mode under httptest, including the request matrix method x body x Content-Type x query string x path parameter x header for 14 request-reading programs; an evaluation is one (level, program, request) whose two outcomes are compared; it is non-trivial unless both engines fail; distinct by (level, source, request)")
+	res := vk.NewResult("every program of layers L1 (13 binary + 2 unary operators x ordered pairs of 16 value shapes, as literals, through variables, and request-derived through JSON body / query string / path parameters), L2 (all operator pairs a op1 b op2 c and unary/binary mixes over 7 operand triples), L3 (statement lists of length <= 2 (thorough 3) over leaf and compound statement templates on three variables, with and without a final return), L4 (every non-excluded name of both engines' built-in tables x argument vectors of arity 0..2 (thorough 3) over 16 shapes, call and method form), L5/L6 (user functions with defaults x call arities, callbacks, match patterns x shapes, scoping, async/await, validation, declared return and input types; hand-written corner programs) is parsed by the real parser; setupRoutes itself decides whether the module is served compiled, interpreted (automatic fallback: then both modes run the interpreter and only determinism is checked) or refused; a module served compiled is run (a) at engine level: CompileRoute(OptBasic)+vm.Execute with the compiled handler's bindings vs interpreter.ExecuteRoute (routes with a declared input type at HTTP level only), and (b) at HTTP level: setupRoutes+createHandler in compiled and in --interpret mode under httptest, including the request matrix method x body x Content-Type x query string x path parameter x header for 15 request-reading programs; an evaluation is one (level, program, request) whose two outcomes are compared; it is non-trivial unless both engines fail; distinct by (level, source, request)")
 	all, vmSet, interpSet, excluded, err := c02Builtins()
 	if err != nil {
 		t.Fatal(err)
